@@ -79,6 +79,10 @@ pub enum Error<'a> {
     /// No units were specified for a number.
     NumberWithoutUnits { number: Str<'a> },
 
+    /// A number is too large: integers must fit in 32 bits and dimensions
+    /// must be smaller than 16384pt, as in TeX.
+    NumberTooLarge { number: Str<'a> },
+
     /// Input contains an invalid character (like a non-ASCII character)
     InvalidCharacter { char: Str<'a> },
 }
@@ -117,6 +121,7 @@ impl<'a> Error<'a> {
             IncompleteKeywordArg { .. } => "Incomplete keyword argument".into(),
             MultipleDecimalPoints { .. } => "A number has multiple decimal points".into(),
             NumberWithoutUnits { .. } => "No units were provided for this number".into(),
+            NumberTooLarge { .. } => "A number is too large".into(),
             InvalidCharacter { .. } => "Invalid character in the input".into(),
         }
     }
@@ -272,6 +277,11 @@ MultipleDecimalPoints { point } => vec![
     },
 
             ],
+            NumberTooLarge { number } => vec![ErrorLabel {
+                span: number.span(),
+                text: "integers must be smaller than 2^31 and dimensions smaller than 16384pt"
+                    .to_string(),
+            }],
             InvalidCharacter { char } => vec![
     ErrorLabel {
         span: char.span(),
@@ -311,6 +321,7 @@ MultipleDecimalPoints { point } => vec![
             | InvalidDimensionUnit { .. }
             | MultipleDecimalPoints { .. }
             | NumberWithoutUnits { .. }
+            | NumberTooLarge { .. }
             | InvalidCharacter { .. } => vec![],
         }
     }
